@@ -238,6 +238,53 @@ def oracle(ctx, case, toks):
                     ctx.violation("C14:message-size-exceeded", f"a {size}-byte message was processed with --max-message-bytes {mm}", rep)
 
 
+def store_oracle(ctx, case, out):
+    """C14 on the transcript of the real Store alone: a code finds exactly its live, unexpired session; the limit is neither exceeded nor
+    applied below it; 0 = no limit"""
+    f = case.split()
+    ttl = int(f[1])
+    toks = [t for t in out.split() if not t.startswith("MAPS:")]
+    ops = f[2:]
+    if len(toks) != len(ops):
+        return
+    live = {}      # idx -> (code, created at)
+    now = 0
+    rep = {"case": case, "impl": out[:1500]}
+    for op, tok in zip(ops, toks):
+        g = op.split(":")
+        if g[0] == "c":
+            mx = int(g[1])
+            if tok.startswith("ok:"):
+                _, idx, code = tok.split(":")
+                if mx > 0 and len(live) >= mx:
+                    ctx.violation("C14:session-limit-exceeded", f"CreateLimited({mx}) created a session with {len(live)} stored", rep)
+                if any(c == int(code) for c, _ in live.values()):
+                    ctx.violation("C14:duplicate-join-code", f"join code {code} given to a second live session", rep)
+                live[int(idx)] = (int(code), now)
+            elif tok == "limit":
+                if mx == 0 or len(live) < mx:
+                    ctx.violation("C14:zero-limit-refuses" if mx == 0 else "C14:session-refused-below-limit", f"CreateLimited({mx}) refused with {len(live)} sessions stored", rep)
+        elif g[0] == "g":
+            code = int(g[1])
+            holder = [i for i, (c, t0) in live.items() if c == code]
+            alive = [i for i in holder if not (ttl and now - live[i][1] > ttl)]
+            if tok.startswith("some:"):
+                if int(tok[5:]) not in alive:
+                    ctx.violation("C14:dead-code-admits", f"GetByJoinCode({code}) returned session {tok[5:]}, which is {'expired' if int(tok[5:]) in holder else 'not the holder of that code'}", rep)
+            else:
+                if alive:
+                    ctx.violation("C14:live-code-refused", f"GetByJoinCode({code}) found nothing although session {alive[0]} holds it and has not expired", rep)
+                for i in holder:       # lazily dropped
+                    del live[i]
+        elif g[0] == "x":
+            live.pop(int(g[1]), None)
+        elif g[0] == "a":
+            now += int(g[1])
+        elif g[0] == "n":
+            if tok.isdigit() and int(tok) != len(live):
+                ctx.violation("C14:store-count-differs", f"Count() = {tok} with {len(live)} sessions stored", rep)
+
+
 def run(ctx):
     ctx.regen()
     ok, thms = ctx.lean_props()
@@ -257,6 +304,7 @@ def run(ctx):
     scases = gen_store(ctx, 8000 if thorough else 400)
     impl, model, diffs = ctx.differential("store", scases, exe, timeout=600)
     for c, o in zip(scases, impl):
+        store_oracle(ctx, c, o)
         if "MAPS:" in o:
             ctx.violation("C14:store-maps-disagree", "sessions and byCode disagree after an operation: " + o[o.index("MAPS:"):][:200], {"case": c, "impl": o})
     # ---- 2. tokenBucket / connLimiter inside the binary
